@@ -8,23 +8,23 @@ namespace TF.InterpSpec
 open TF TF.Engine TF.Spec
 
 mutual
-theorem nodeCert_stage_nil : ∀ (node : QNode) (W : World) (miss : Bool) (vid : Vid) (L : List Ev)
-    (ss : List Stage) (evs : List Ev), NodeCert W miss node vid L ss evs →
+theorem nodeCert_stage_nil : ∀ (node : QNode) (W : World) (vid : Vid) (L : List Ev)
+    (ss : List Stage) (evs : List Ev), NodeCert W node vid L ss evs →
     ∀ (fuel : Nat), ∀ s ∈ ss, StageNil W fuel s
-  | .mk ct fields, W, miss, vid, L, ss, evs, hcert, fuel, s, hs => by
+  | .mk ct fields, W, vid, L, ss, evs, hcert, fuel, s, hs => by
     unfold NodeCert at hcert
     obtain ⟨V, evs', _, _, _, _, _, _, _, hF⟩ := hcert
-    exact fieldsCert_stage_nil fields W miss vid (L ++ [.vtx vid]) ss evs' hF fuel s hs
-theorem fieldsCert_stage_nil : ∀ (fields : List QField) (W : World) (miss : Bool) (vid : Vid)
-    (L : List Ev) (ss : List Stage) (evs : List Ev), FieldsCert W miss fields vid L ss evs →
+    exact fieldsCert_stage_nil fields W vid (L ++ [.vtx vid]) ss evs' hF fuel s hs
+theorem fieldsCert_stage_nil : ∀ (fields : List QField) (W : World) (vid : Vid)
+    (L : List Ev) (ss : List Stage) (evs : List Ev), FieldsCert W fields vid L ss evs →
     ∀ (fuel : Nat), ∀ s ∈ ss, StageNil W fuel s
-  | [], W, miss, vid, L, ss, evs, hcert, fuel, s, hs => by
+  | [], W, vid, L, ss, evs, hcert, fuel, s, hs => by
     unfold FieldsCert at hcert
     rw [hcert.1] at hs; cases hs
-  | .prop n dirs :: rest, W, miss, vid, L, ss, evs, hcert, fuel, s, hs => by
+  | .prop n dirs :: rest, W, vid, L, ss, evs, hcert, fuel, s, hs => by
     unfold FieldsCert at hcert
-    exact fieldsCert_stage_nil rest W miss vid L ss evs hcert fuel s hs
-  | .edge n params kind child :: rest, W, miss, vid, L, ss, evs, hcert, fuel, s, hs => by
+    exact fieldsCert_stage_nil rest W vid L ss evs hcert fuel s hs
+  | .edge n params kind child :: rest, W, vid, L, ss, evs, hcert, fuel, s, hs => by
     unfold FieldsCert at hcert
     cases kind with
     | fold fds =>
@@ -35,7 +35,7 @@ theorem fieldsCert_stage_nil : ∀ (fields : List QField) (W : World) (miss : Bo
         simp only [StageNil]
         rw [computeFold_nil W facts.lim fuel f (by rw [facts.from_]; exact hfromV)]
         rfl
-      · exact fieldsCert_stage_nil rest W miss vid (L ++ [.fold f.eid]) ssR evsR hR fuel s hmem
+      · exact fieldsCert_stage_nil rest W vid (L ++ [.fold f.eid]) ssR evsR hR fuel s hmem
     | plain =>
       simp only at hcert
       obtain ⟨e, ssC, ssR, evsC, evsR, rfl, rfl, hfrom, hfromV, hname, hkind, hparams, hC, hR⟩ := hcert
@@ -45,8 +45,8 @@ theorem fieldsCert_stage_nil : ∀ (fields : List QField) (W : World) (miss : Bo
         exact expandEdge_nil' W e (by rw [hfrom]; exact hfromV) htoV
           (enterVertex_nil W e.toVid toV htoV htoVid _ _ hflC)
       · rcases List.mem_append.1 hmem with h | h
-        · exact nodeCert_stage_nil child W _ e.toVid L ssC evsC hC fuel s h
-        · exact fieldsCert_stage_nil rest W miss vid (L ++ evsC) ssR evsR hR fuel s h
+        · exact nodeCert_stage_nil child W e.toVid L ssC evsC hC fuel s h
+        · exact fieldsCert_stage_nil rest W vid (L ++ evsC) ssR evsR hR fuel s h
     | optional =>
       simp only at hcert
       obtain ⟨e, ssC, ssR, evsC, evsR, rfl, rfl, hfrom, hfromV, hname, hkind, hparams, hC, hR⟩ := hcert
@@ -56,8 +56,8 @@ theorem fieldsCert_stage_nil : ∀ (fields : List QField) (W : World) (miss : Bo
         exact expandEdge_nil' W e (by rw [hfrom]; exact hfromV) htoV
           (enterVertex_nil W e.toVid toV htoV htoVid _ _ hflC)
       · rcases List.mem_append.1 hmem with h | h
-        · exact nodeCert_stage_nil child W _ e.toVid L ssC evsC hC fuel s h
-        · exact fieldsCert_stage_nil rest W miss vid (L ++ evsC) ssR evsR hR fuel s h
+        · exact nodeCert_stage_nil child W e.toVid L ssC evsC hC fuel s h
+        · exact fieldsCert_stage_nil rest W vid (L ++ evsC) ssR evsR hR fuel s h
     | recurse d =>
       simp only at hcert
       obtain ⟨e, ssC, ssR, evsC, evsR, rfl, rfl, hfrom, hfromV, hname, hkind, hparams, hC, hR⟩ := hcert
@@ -67,8 +67,8 @@ theorem fieldsCert_stage_nil : ∀ (fields : List QField) (W : World) (miss : Bo
         exact expandEdge_nil' W e (by rw [hfrom]; exact hfromV) htoV
           (enterVertex_nil W e.toVid toV htoV htoVid _ _ hflC)
       · rcases List.mem_append.1 hmem with h | h
-        · exact nodeCert_stage_nil child W _ e.toVid L ssC evsC hC fuel s h
-        · exact fieldsCert_stage_nil rest W miss vid (L ++ evsC) ssR evsR hR fuel s h
+        · exact nodeCert_stage_nil child W e.toVid L ssC evsC hC fuel s h
+        · exact fieldsCert_stage_nil rest W vid (L ++ evsC) ssR evsR hR fuel s h
 end
 
 end TF.InterpSpec
@@ -93,30 +93,30 @@ theorem VisitOK_append (visited : List Vid) (s1 s2 : List Stage) :
   | cons s ss ih => simp [VisitOK, visitedAfter, ih, and_assoc]
 
 mutual
-theorem visit_node : ∀ (node : QNode) (W : World) (miss : Bool) (vid : Vid) (L : List Ev)
-    (ss : List Stage) (evs : List Ev), NodeCert W miss node vid L ss evs →
+theorem visit_node : ∀ (node : QNode) (W : World) (vid : Vid) (L : List Ev)
+    (ss : List Stage) (evs : List Ev), NodeCert W node vid L ss evs →
     ((L ++ evs).map evVid).Nodup →
     ∀ visited, (∀ x, x ∈ visited ↔ x ∈ (L ++ [Ev.vtx vid]).map evVid) →
     VisitOK visited ss ∧ ∀ x, x ∈ visitedAfter visited ss ↔ x ∈ (L ++ evs).map evVid
-  | .mk ct fields, W, miss, vid, L, ss, evs, hcert, hnd, visited, hvis => by
+  | .mk ct fields, W, vid, L, ss, evs, hcert, hnd, visited, hvis => by
     unfold NodeCert at hcert
     obtain ⟨V, evs', rfl, _, _, _, _, _, _, hF⟩ := hcert
-    have := visit_fields fields W miss vid (L ++ [.vtx vid]) ss evs' hF (by simp) (by simpa using hnd)
+    have := visit_fields fields W vid (L ++ [.vtx vid]) ss evs' hF (by simp) (by simpa using hnd)
       visited hvis
     simpa using this
-theorem visit_fields : ∀ (fields : List QField) (W : World) (miss : Bool) (vid : Vid) (L : List Ev)
-    (ss : List Stage) (evs : List Ev), FieldsCert W miss fields vid L ss evs → Ev.vtx vid ∈ L →
+theorem visit_fields : ∀ (fields : List QField) (W : World) (vid : Vid) (L : List Ev)
+    (ss : List Stage) (evs : List Ev), FieldsCert W fields vid L ss evs → Ev.vtx vid ∈ L →
     ((L ++ evs).map evVid).Nodup →
     ∀ visited, (∀ x, x ∈ visited ↔ x ∈ L.map evVid) →
     VisitOK visited ss ∧ ∀ x, x ∈ visitedAfter visited ss ↔ x ∈ (L ++ evs).map evVid
-  | [], W, miss, vid, L, ss, evs, hcert, _, _, visited, hvis => by
+  | [], W, vid, L, ss, evs, hcert, _, _, visited, hvis => by
     unfold FieldsCert at hcert
     obtain ⟨rfl, rfl⟩ := hcert
     simpa [VisitOK, visitedAfter] using hvis
-  | .prop _ _ :: rest, W, miss, vid, L, ss, evs, hcert, hvid, hnd, visited, hvis => by
+  | .prop _ _ :: rest, W, vid, L, ss, evs, hcert, hvid, hnd, visited, hvis => by
     unfold FieldsCert at hcert
-    exact visit_fields rest W miss vid L ss evs hcert hvid hnd visited hvis
-  | .edge n params kind child :: rest, W, miss, vid, L, ss, evs, hcert, hvid, hnd, visited, hvis => by
+    exact visit_fields rest W vid L ss evs hcert hvid hnd visited hvis
+  | .edge n params kind child :: rest, W, vid, L, ss, evs, hcert, hvid, hnd, visited, hvis => by
     unfold FieldsCert at hcert
     have hvidIn : vid ∈ visited := (hvis vid).2 (List.mem_map.2 ⟨Ev.vtx vid, hvid, rfl⟩)
     -- the common part, given the stage's destination and the events of the child part
@@ -157,7 +157,7 @@ theorem visit_fields : ∀ (fields : List QField) (W : World) (miss : Bool) (vid
         (by simp [stTo, evVid, facts.toVid]) (by simpa using hnd)
         (fun visited' hv' => ⟨trivial, by simpa [visitedAfter] using hv'⟩)
         (fun visited' hv' => by
-          have := visit_fields rest W miss vid (L ++ [.fold f.eid]) ssR evsR hR
+          have := visit_fields rest W vid (L ++ [.fold f.eid]) ssR evsR hR
             (List.mem_append_left _ hvid) (by simpa using hnd) visited' hv'
           simpa using this)
       simpa using this
@@ -166,33 +166,33 @@ theorem visit_fields : ∀ (fields : List QField) (W : World) (miss : Bool) (vid
       obtain ⟨e, ssC, ssR, evsC, evsR, rfl, rfl, hfrom, _, _, _, _, hC, hR⟩ := hcert
       obtain ⟨toV, evsC', sfs, rfl, _, _, _⟩ := hC.dest
       exact key (.edge e) ssC ssR (.vtx e.toVid) evsC' evsR hfrom rfl hnd
-        (fun visited' hv' => visit_node child W _ e.toVid L ssC _ hC (by
+        (fun visited' hv' => visit_node child W e.toVid L ssC _ hC (by
           rw [← List.append_assoc] at hnd
           rw [List.map_append] at hnd
           exact (List.nodup_append.1 hnd).1) visited' hv')
-        (fun visited' hv' => visit_fields rest W miss vid _ ssR evsR hR
+        (fun visited' hv' => visit_fields rest W vid _ ssR evsR hR
           (List.mem_append_left _ hvid) (by simpa using hnd) visited' hv')
     | optional =>
       simp only at hcert
       obtain ⟨e, ssC, ssR, evsC, evsR, rfl, rfl, hfrom, _, _, _, _, hC, hR⟩ := hcert
       obtain ⟨toV, evsC', sfs, rfl, _, _, _⟩ := hC.dest
       exact key (.edge e) ssC ssR (.vtx e.toVid) evsC' evsR hfrom rfl hnd
-        (fun visited' hv' => visit_node child W _ e.toVid L ssC _ hC (by
+        (fun visited' hv' => visit_node child W e.toVid L ssC _ hC (by
           rw [← List.append_assoc] at hnd
           rw [List.map_append] at hnd
           exact (List.nodup_append.1 hnd).1) visited' hv')
-        (fun visited' hv' => visit_fields rest W miss vid _ ssR evsR hR
+        (fun visited' hv' => visit_fields rest W vid _ ssR evsR hR
           (List.mem_append_left _ hvid) (by simpa using hnd) visited' hv')
     | recurse d =>
       simp only at hcert
       obtain ⟨e, ssC, ssR, evsC, evsR, rfl, rfl, hfrom, _, _, _, _, hC, hR⟩ := hcert
       obtain ⟨toV, evsC', sfs, rfl, _, _, _⟩ := hC.dest
       exact key (.edge e) ssC ssR (.vtx e.toVid) evsC' evsR hfrom rfl hnd
-        (fun visited' hv' => visit_node child W _ e.toVid L ssC _ hC (by
+        (fun visited' hv' => visit_node child W e.toVid L ssC _ hC (by
           rw [← List.append_assoc] at hnd
           rw [List.map_append] at hnd
           exact (List.nodup_append.1 hnd).1) visited' hv')
-        (fun visited' hv' => visit_fields rest W miss vid _ ssR evsR hR
+        (fun visited' hv' => visit_fields rest W vid _ ssR evsR hR
           (List.mem_append_left _ hvid) (by simpa using hnd) visited' hv')
 end
 
